@@ -85,7 +85,7 @@ func provablyEmpty(v ssa.Value, b *ssa.BasicBlock) (bool, string) {
 	if guarded {
 		return true, ""
 	}
-	leaves, _ := phiLeaves(v)
+	leaves, _ := phiLeavesAt(v, b)
 	for _, lf := range leaves {
 		if isNilConst(lf.val) {
 			continue
